@@ -244,7 +244,7 @@ def normalize(res, sc, tid):
             ev.append({'e': 'Status', 'x': X(e), 'st': e.get('status', '')})
         elif k == 'AnnounceBegin':
             ev.append({'e': 'AnnBegin', 'x': X(e)})
-        elif k in ('CtlCancelBegin', 'CtlCancelEnd', 'CtlWaitKbi'):
+        elif k in ('CtlHooked', 'CtlCancelBegin', 'CtlCancelEnd', 'CtlWaitKbi'):
             ev.append({'e': k})
         elif k == 'CancelBegin':
             # coordinator-level cancel (linearization point of every entry)
